@@ -62,6 +62,10 @@ def make_case(cid, rng, schema, root, n_ops, disk):
                        "file_bytes": 1000, "played_indicator": 9, "third_party_source_id": 4,
                        "time_last_played": 1600000000 * 10 ** 9}.get(col, "7374796c65")
             add({"op": "trk_set_col", "id": "$tid%d" % rng.randrange(3), "col": col, "value": val}, None)
+        if rng.random() < 0.5:
+            # a track as Engine DJ leaves one it has not analysed: performance blobs that are NULL or empty
+            colname = rng.choice(["quickCues", "loops", "beatData", "trackData", "overviewWaveFormData"])
+            add({"op": "raw_exec", "sql": "UPDATE Track SET %s = %s WHERE id = (SELECT MAX(id) FROM Track)" % (colname, rng.choice(["NULL", "x''"]))}, None)
     else:
         # 1.x: the same kind of state through plain SQL (foreign writers leave such rows)
         for _ in range(rng.randrange(2, 6)):
